@@ -58,6 +58,7 @@ type docGen struct {
 	// page URL given: relative media/link URLs
 	hideVariants []string
 	wrapIn       string // C03: place the generated forest inside li / blockquote / table cell
+	noTitle      bool   // no <title> element (C09: the word-count clause needs pages without title)
 }
 
 func newDocGen(seed int64, id int) *docGen {
@@ -285,7 +286,10 @@ func (g *docGen) render(n *cnode) string {
 		}
 	case "IMG":
 		m := g.marker()
-		switch g.pick("plain", "srcset", "picture", "lazy", "wiki", "alt") {
+		switch g.pick("plain", "srcset", "picture", "lazy", "wiki", "alt", "srcsetcomma") {
+		case "srcsetcomma":
+			// CDN style URLs carry commas; only a comma followed by white space separates candidates
+			return fmt.Sprintf(`<img src="/i/m%d.png" srcset="/i/w_400,h_300/m%d-a.png 400w, /i/w_800,h_600/m%d-b.png 800w"%s>`, m, m, m, g.noiseAttrs())
 		case "srcset":
 			return fmt.Sprintf(`<img src="/i/m%d.png" srcset="/i/m%d-2x.png 2x, /i/m%d-3x.png 3x"%s>`, m, m, m, g.noiseAttrs())
 		case "picture":
@@ -434,7 +438,11 @@ func (g *docGen) page(forest []*cnode, place string) string {
 		gen = "<table><tr><th>" + g.words(1) + "</th><th>" + g.words(1) + "</th></tr><tr><td>" + gen + "</td><td>" + g.words(4) + "</td></tr></table>"
 	}
 	var sb strings.Builder
-	sb.WriteString("<!DOCTYPE html><html><head><title>" + g.words(6) + "</title></head><body>")
+	if g.noTitle {
+		sb.WriteString("<!DOCTYPE html><html><head></head><body>")
+	} else {
+		sb.WriteString("<!DOCTYPE html><html><head><title>" + g.words(6) + "</title></head><body>")
+	}
 	switch place {
 	case "solo":
 		sb.WriteString(gen)
